@@ -7,3 +7,5 @@ import IppModel.Props.C01
 #print axioms Ipp.Props.C01.opFirst_id_of_wf
 #print axioms Ipp.Props.C01.opFirst_only_reorders
 #print axioms Ipp.Props.C01.opFirst_without_operation_group
+#print axioms Ipp.Props.C01.encode_injective
+#print axioms Ipp.Props.C01.listing_irrelevant
